@@ -48,6 +48,7 @@ def run_pair(scns):
     """Returns list of (scn, impl canonical lines, model canonical lines, runtime)."""
     lines = []
     for s in scns:
+        eng.normalize(s)
         lines += eng.model_lines(s)
     mod = run_driver(lines)
     out = []
